@@ -574,6 +574,15 @@ def do_fresh_subs(arg, subs):
     if not subs:
         return arg
     if all(name in arg.fresh for name, sub in subs):
+        if any(
+            isinstance(sub, Funsor) and other != name and other in sub.inputs
+            for name, sub in subs
+            for other, _ in subs
+        ):
+            # A value mentions another substituted name: substitution is
+            # simultaneous, so leave it to substitute(), which renames the
+            # names apart first (eager_subs() may apply the map in stages).
+            return None
         return arg.eager_subs(subs)
     return None
 
